@@ -11,6 +11,7 @@ the two snapshots (a replaced-and-freed list could otherwise be mistaken for the
 from __future__ import annotations
 
 import argparse
+import collections
 import enum
 import math
 
@@ -51,7 +52,10 @@ def fingerprint(obj, keep, _seen=None, _depth=0):
         return ("ns", tname, oid, tuple((k, fingerprint(v, keep, _seen, d)) for k, v in vars(obj).items()))
     if isinstance(obj, dict):
         _seen = _seen | {oid}
-        return ("dict", tname, oid, tuple((repr(k), fingerprint(v, keep, _seen, d)) for k, v in obj.items()))
+        # an OrderedDict is a mapping object of a class of its own: the library's entry-level copies (clone, strip_meta,
+        # recreate_branches) hand it on as it is, like tuples and sets before fix 908f15a -> a place class of its own
+        kind = "odict" if isinstance(obj, collections.OrderedDict) else "dict"
+        return (kind, tname, oid, tuple((repr(k), fingerprint(v, keep, _seen, d)) for k, v in obj.items()))
     if isinstance(obj, list):
         _seen = _seen | {oid}
         return ("list", tname, oid, tuple((i, fingerprint(v, keep, _seen, d)) for i, v in enumerate(obj)))
@@ -128,6 +132,8 @@ def where_of(diff):
     top level of the object itself."""
     kinds = diff["kinds"]
     # kinds[0] is the root object itself; a change of one of its direct entries is "top-level"
+    if "odict" in kinds:
+        return "inside-ordered-dict"
     if "tuple" in kinds:
         return "inside-tuple"
     if "set" in kinds:
@@ -140,12 +146,13 @@ def where_of(diff):
 
 
 def containers(obj, out=None, _seen=None, through_objects=True):
-    """All mutable containers (Namespace, dict, list, set) reachable from obj -> {id: (object, has tuple/set above)}."""
+    """All mutable containers (Namespace, dict, list, set) reachable from obj -> {id: (object, under)} with under =
+    "od" for an OrderedDict and everything below one, else "ts" for what has a tuple / set above, else ""."""
     if out is None:
         out = {}
     if _seen is None:
         _seen = set()
-    _walk(obj, out, _seen, False, through_objects, 0)
+    _walk(obj, out, _seen, "", through_objects, 0)
     return out
 
 
@@ -158,6 +165,8 @@ def _walk(obj, out, seen, under_ts, through_objects, depth):
         for v in vars(obj).values():
             _walk(v, out, seen, under_ts, through_objects, depth + 1)
     elif isinstance(obj, dict):
+        if isinstance(obj, collections.OrderedDict):
+            under_ts = "od"
         out[id(obj)] = (obj, under_ts)
         for v in obj.values():
             _walk(v, out, seen, under_ts, through_objects, depth + 1)
@@ -168,7 +177,7 @@ def _walk(obj, out, seen, under_ts, through_objects, depth):
     elif isinstance(obj, set):
         out[id(obj)] = (obj, under_ts)
         for v in obj:
-            _walk(v, out, seen, True, through_objects, depth + 1)
+            _walk(v, out, seen, under_ts or "ts", through_objects, depth + 1)
     elif isinstance(obj, (tuple, frozenset)):
         for v in obj:
-            _walk(v, out, seen, True, through_objects, depth + 1)
+            _walk(v, out, seen, under_ts or "ts", through_objects, depth + 1)
